@@ -106,14 +106,14 @@ SPEC = {
         "TestEquivalence/yaml_style_fallback": 0.05,
         # classes added after seeded defects C16/m7-m9
         "TestEquivalence/weight_zero": 0.12, "TestEquivalence/weight_zero_only_scenario": 0.012, "TestEquivalence/weight_zero_among_several": 0.1,
-        "TestEquivalence/yaml_key_order_permuted": 0.5, "TestEquivalence/yaml_scenarios_section_not_last": 0.28,
+        "TestEquivalence/yaml_key_order_permuted": 0.37, "TestEquivalence/yaml_scenarios_section_not_last": 0.22,
         "TestEquivalence/yaml_body_or_payload_last_key": 0.25, "TestEquivalence/yaml_ends_with_block_scalar": 0.13,
         "TestEquivalence/yaml_ends_with_block_scalar_owning_final_newline": 0.035, "TestEquivalence/yaml_ends_with_block_scalar_clip": 0.02,
         "TestEquivalence/yaml_ends_with_block_scalar_keep": 0.015, "TestEquivalence/yaml_ends_with_block_scalar_keep_blank_lines": 0.006,
         "TestEquivalence/yaml_ends_with_folded": 0.04, "TestEquivalence/yaml_ends_with_body_or_payload_block": 0.07,
         "TestEquivalence/yaml_tail_nonl": 0.07, "TestEquivalence/yaml_tail_blank": 0.07, "TestEquivalence/yaml_tail_comment": 0.07,
         "TestEquivalence/hcl_tail_nonl": 0.07, "TestEquivalence/hcl_tail_blank": 0.07, "TestEquivalence/hcl_tail_comment": 0.07,
-        "TestLocals/weight_zero": 0.12, "TestLocals/yaml_scenarios_section_not_last": 0.28, "TestLocals/yaml_ends_with_block_scalar": 0.12,
+        "TestLocals/weight_zero": 0.12, "TestLocals/yaml_scenarios_section_not_last": 0.22, "TestLocals/yaml_ends_with_block_scalar": 0.12,
         "TestLocals/yaml_ends_with_block_scalar_owning_final_newline": 0.03,
         # classes added after seeded defects C16/m10-m11
         "TestEquivalence/no_scenarios": 0.025, "TestEquivalence/no_scenarios_http": 0.014, "TestEquivalence/no_scenarios_grpc": 0.008,
@@ -123,7 +123,7 @@ SPEC = {
         "TestEquivalence/long_line_in_hcl_heredoc": 0.015, "TestEquivalence/long_line_in_hcl_quoted_string": 0.02,
         "TestEquivalence/long_line_in_yaml_literal": 0.015, "TestEquivalence/long_line_in_yaml_marshal_form": 0.008,
         "TestEquivalence/long_line_header": 0.006,
-        "TestLocals/no_scenarios": 0.02, "TestLocals/long_line": 0.05, "TestLocals/hcl_physical_line_4k_or_more": 0.04,
+        "TestLocals/no_scenarios": 0.02, "TestLocals/long_line": 0.038, "TestLocals/hcl_physical_line_4k_or_more": 0.04,
         "TestConcurrentLoads/conc_all_descriptions_differ": 0.6, "TestConcurrentLoads/conc_http_and_grpc": 0.4,
         "TestConcurrentLoads/conc_hcl_over_2k": 0.3, "TestConcurrentLoads/conc_loaders_5_per_processor_or_more": 0.2,
         "TestConcurrentLoads/conc_40_hcl_loads_or_more": 0.4, "TestConcurrentLoads/conc_12_provider_builds_or_more": 0.6,
